@@ -88,8 +88,8 @@ func (p *KPlan) Valid() bool {
 	}
 	if p.Scenario != 16 && p.Scenario != 18 {
 		for _, f := range p.Faults {
-			if f.DataTrunc != 0 || f.DataPad != 0 || f.AckShort != 0 {
-				return false // malformed datagrams belong to the C16 / C18 scenarios
+			if f.DataTrunc != 0 || f.DataPad != 0 || (f.AckShort != 0 && p.Scenario != 8) {
+				return false // malformed datagrams belong to the C16 / C18 scenarios (a truncated ACK also to C08)
 			}
 			if f.Spoof != 0 && !(p.Scenario == 8 && p.Transport == 1) {
 				return false // a forged reply ahead of the real one needs the real NetlinkClient's sender check
@@ -327,6 +327,14 @@ func GenKPlanC08(r *core.Rng) *KPlan {
 	genFaults(r, 3*n+6, p, errnoPct, unsolPct, stalePct, delayPct)
 	if r.Chance(1, 6) {
 		genSendErr(r, 3*n+4, p)
+	}
+	if r.Chance(1, 10) {
+		// the ACK datagram is cut short (0..19 bytes): whatever the verdict was, it cannot be read
+		for i := range p.Faults {
+			if r.Chance(1, 4) {
+				p.Faults[i].AckShort = 1 + r.Intn(20)
+			}
+		}
 	}
 	if p.Transport == 1 && r.Chance(1, 8) {
 		// a forged "success" ACK with the request's own sequence number, sent by
